@@ -107,13 +107,14 @@ type idxInfo struct {
 }
 
 type tabTr struct {
-	p       *packages.Package
-	info    *types.Info
-	fns     map[string]*tfn
-	order   []*tfn
-	ignored []string
-	callees map[string]bool
-	assume  map[string]bool
+	p         *packages.Package
+	info      *types.Info
+	fns       map[string]*tfn
+	order     []*tfn
+	ignored   []string
+	ignoredAt map[string]bool
+	callees   map[string]bool
+	assume    map[string]bool
 }
 
 var tableTargets = [][2]string{
@@ -187,6 +188,15 @@ func (x *tabTr) src(n ast.Node) string {
 var srcCache = map[string][]byte{}
 
 func (x *tabTr) ignore(f *tfn, kind string, n ast.Node) {
+	// a statement reached on several duplicated continuations (or in both translation passes) is listed once
+	if x.ignoredAt == nil {
+		x.ignoredAt = map[string]bool{}
+	}
+	key := fmt.Sprintf("%s@%d", f.lean, n.Pos())
+	if x.ignoredAt[key] {
+		return
+	}
+	x.ignoredAt[key] = true
 	s := x.src(n)
 	if len(s) > 90 {
 		s = s[:90] + "…"
@@ -540,4 +550,3 @@ func (x *tabTr) calleeOf(c *ast.CallExpr) *tfn {
 	}
 	return x.fns[recv+"."+fn.Name()]
 }
-
